@@ -337,7 +337,7 @@ pub fn run(ctx: &Ctx) -> PropResult {
     let mut all: Vec<&'static IfaceDesc> = vec![mini, ctx.iface("pzoo")];
     all.extend(ctx.random_ifaces());
     let rand_shards = 64usize;
-    let rand_cases = ctx.scaled(if ctx.thorough { 30_000 } else { 2_000 });
+    let rand_cases = ctx.scaled(if ctx.thorough { 100_000 } else { 8_000 });
     // exhaustive shards: (N, slice of the short streams)
     let slices = 8usize;
     let per = shorts.len().div_ceil(slices);
